@@ -83,6 +83,13 @@ def build_case(seed, pid, i, tier):
         if sub:
             cmd_roots.append(r.choice(sub))
     spec["cmd_roots"] = cmd_roots
+    # the same list of input paths may arrive on standard input instead of the command line
+    spec["roots_on_stdin"] = r.random() < 0.25
+    if spec["roots_on_stdin"] and r.random() < 0.5:
+        # ... also as `find`-style output: single files next to the directories that contain them
+        fl = [e["p"] for e in spec["entries"] if e["t"] == "f" and "\n" not in e["p"]]
+        if fl:
+            spec["cmd_roots"] = cmd_roots + r.sample(fl, min(len(fl), r.randrange(1, 4)))
     if o["min0"] and r.random() < 0.5:
         spec["entries"].append({"t": "f", "p": "r0/empty1", "fam": 1, "len": 0, "mtime": 500})
         spec["entries"].append({"t": "f", "p": "r0/empty2", "fam": 1, "len": 0, "mtime": 501})
@@ -120,10 +127,12 @@ def _run(seed, pid, i, o, spec, meta, scratch):
     trace = pid == "C01" and not o["cache"] and not o["transform"] and i % 2 == 0
     log = os.path.join(d, "shim.log")
     extra_env = shimlog.shim_env(log, [troot]) if trace else None
-    res, argv = gm.run_group(o, roots, troot, home, extra_env=extra_env)
+    on_stdin = spec.get("roots_on_stdin") and not any("\n" in rt for rt in roots)
+    gkw = {"extra_args": ["--stdin"], "stdin": b"".join(fse(rt) + b"\n" for rt in roots)} if on_stdin else {}
+    res, argv = gm.run_group(o, [] if on_stdin else roots, troot, home, extra_env=extra_env, **gkw)
     if o["cache"] == "warm":
-        res, argv = gm.run_group(o, roots, troot, home)
-    witness = {"case": i, "opts": o, "spec": spec, "argv": [fsd(a) for a in argv], "cwd": troot,
+        res, argv = gm.run_group(o, [] if on_stdin else roots, troot, home, **gkw)
+    witness = {"case": i, "opts": o, "spec": spec, "argv": [fsd(a) for a in argv], "cwd": troot, "roots_on_stdin": bool(on_stdin),
                "rc": res.rc, "stderr": res.err_text()[-3000:]}
     if res.timed_out:
         return [inconclusive("group timed out")]
@@ -135,7 +144,7 @@ def _run(seed, pid, i, o, spec, meta, scratch):
     except Exception as e:
         return [violation("%s:unparsable-report" % pid, "report not parsable: %s" % e, witness)]
 
-    counts = {"groups_reported": len(rep.groups), "opts": [gm.opts_sig(o)]}
+    counts = {"groups_reported": len(rep.groups), "opts": [gm.opts_sig(o)], "runs_with_input_paths_on_stdin": 1 if on_stdin else 0}
     if twin is not None:
         counts["trees_on_two_fresh_tmpfs_mounts" if twin else "twin_mounts_not_permitted"] = 1
         if twin:
